@@ -129,6 +129,35 @@ def catalogue(name):
     """name: 'q' (1 axis of 6 cells, objects 2,3), 't' (2 axes 6x4, cross-axis size constraints), 'neg' (4 objects, tiny),
     'neg2' (static position + position constraint + size constraint, tiny)"""
     n1 = 6
+    if name == "x":
+        # cross-axis size constraints: the reference (object 3 or the volume) has DIFFERENT extents on the two axes and the
+        # solver must read the reference's slice on `other_axes`, in both directions 1->2 and 2->1, with proportions and offsets
+        n2 = 4
+        ed = [[4 * i - 2 * n1 for i in range(n1 + 1)], [4 * i - 2 * n2 for i in range(n2 + 1)]]
+        vol = {"gs": [n1, n2], "rs": [U, U], "rp": [U, U]}
+        specs = [
+            [{"gs": [U, U], "rs": [U, U], "rp": [U, U]}, {"gs": [U, U], "rs": [U, U], "rp": [0, 0]}, {"gs": [U, 2], "rs": [U, U], "rp": [U, U]}],
+            [{"gs": [3, 1], "rs": [U, U], "rp": [2, -2]}, {"gs": [2, 3], "rs": [U, U], "rp": [U, U]}, {"gs": [U, 1], "rs": [16, U], "rp": [U, 4]}],
+        ]
+        cat = []
+        for p in (3, 1):
+            cat += [
+                {"t": "size", "o": 2, "p": p, "ax": [1], "oax": [2], "pr": [4], "off": [0], "goff": [0]},
+                {"t": "size", "o": 2, "p": p, "ax": [2], "oax": [1], "pr": [4], "off": [0], "goff": [0]},
+                {"t": "size", "o": 2, "p": p, "ax": [1], "oax": [2], "pr": [8], "off": [-4], "goff": [0]},
+                {"t": "size", "o": 2, "p": p, "ax": [2], "oax": [1], "pr": [2], "off": [2], "goff": [1]},
+                {"t": "size", "o": 2, "p": p, "ax": [1, 2], "oax": [2, 1], "pr": [4, 2], "off": [4, 0], "goff": [0, 0]},
+            ]
+        cat += [
+            {"t": "pos", "o": 2, "p": 1, "ax": [1, 2], "ko": [2, 2], "kp": [2, 2], "m": [0, 0], "gm": [0, 0]},
+            {"t": "pos", "o": 2, "p": 3, "ax": [1], "ko": [0], "kp": [4], "m": [0], "gm": [0]},
+            {"t": "gc", "o": 2, "ax": [1, 2], "sd": [1, 1], "co": [1, 0]},
+            {"t": "ext", "o": 2, "p": 0, "a": 2, "d": 2, "kp": 0, "off": 0, "goff": 0},
+            {"t": "size", "o": 3, "p": 2, "ax": [2], "oax": [1], "pr": [4], "off": [0], "goff": [0]},
+        ]
+        for i, c in enumerate(cat, start=1):
+            c["id"] = i
+        return {"ed": ed, "vol": vol, "specs": specs, "cat": cat}
     if name == "neg2":
         full = catalogue("q")
         def pick(**kw):
@@ -233,7 +262,7 @@ def write_catalogues(spec_dir):
     import json
     import os
 
-    for name in ("q", "t", "neg", "neg2"):
+    for name in ("q", "t", "x", "neg", "neg2"):
         with open(os.path.join(spec_dir, "Place_catalogue_%s.json" % name), "w") as f:
             json.dump(catalogue(name), f, separators=(",", ":"))
 
@@ -299,7 +328,7 @@ def random_system(rng):
                 cons.append({"t": "pos", "o": o, "p": p, "ax": [a], "ko": [rng.choice([0, 2, 4, 1])], "kp": [rng.choice([0, 2, 4, 3])],
                              "m": [rng.choice([0, 0, 2, -4, 4])], "gm": [0 if stretched else rng.choice([0, 0, 1, -1])]})
             elif t == "size":
-                cons.append({"t": "size", "o": o, "p": p, "ax": [a], "oax": [rng.choice([a, a, 3 - a])], "pr": [rng.choice([4, 2, 4, 1])],
+                cons.append({"t": "size", "o": o, "p": p, "ax": [a], "oax": [rng.choice([a, 3 - a])], "pr": [rng.choice([4, 2, 4, 1, 8])],
                              "off": [rng.choice([0, 0, -4, 2])], "goff": [0 if stretched else rng.choice([0, 0, -1])]})
             elif t == "ext":
                 cons.append({"t": "ext", "o": o, "p": rng.choice([0, p]), "a": a, "d": rng.choice([1, 2]), "kp": rng.choice([0, 4, 2]), "off": rng.choice([0, 0, 2, -4]), "goff": 0 if stretched else rng.choice([0, 0, 1, -1])})
@@ -335,6 +364,11 @@ def gen_cases(ctx, want):
         if drop:
             continue
         out.append(("q-" + sid, s))
+    catx = catalogue("x")
+    for sid, s in enumerate_systems(catx, 2):
+        if ctx.quick and len(s["cons"]) == 2 and rng.random() > 0.4:
+            continue
+        out.append(("x-" + sid, s))
     if not ctx.quick:
         catt = catalogue("t")
         for sid, s in enumerate_systems(catt, 2):
@@ -388,8 +422,10 @@ def classify(record, verdict):
 def model_check(ctx):
     if ctx.quick:
         ctx.mc("Place", "MC_Place_q.cfg", label="all systems volume(6 cells)+2 objects without static specs, <=2 constraints of 46: scheduled run + all per-iteration constraint orders")
+        ctx.mc("Place", "MC_Place_qx.cfg", label="2 axes 6x4: cross-axis size constraints (both directions, proportions, offsets) on references with different extents, 4 static-spec combinations x <=2 constraints of 15")
         ctx.mc("Place", "MC_Place_q1.cfg", label="all 15 static-spec combinations (grid/real shape, real position) x <=1 constraint of 46")
     else:
+        ctx.mc("Place", "MC_Place_tx.cfg", label="2 axes 6x4: cross-axis size constraints on references with different extents, 9 static-spec combinations x <=2 constraints of 15")
         ctx.mc("Place", "MC_Place_t.cfg", label="1 axis, all 15 static-spec combinations, <=2 constraints of 46")
         ctx.mc("Place", "MC_Place_t2.cfg", label="2 axes 6x4 incl. cross-axis size and 2-axis constraints, <=2 constraints of 64")
         ctx.mc("Place", "MC_Place_t3.cfg", label="1 axis, 4 static-spec combinations, <=3 constraints of 46")
